@@ -3,6 +3,8 @@ from functools import lru_cache
 from vt.ref import rx
 
 LEAVES = (('0',), ('1',), ('s', 'a'), ('s', 'b'))
+# symbols that PRINT like the constants 0 and 1 (objects built in code, e.g. by dfa_to_regexp on a binary DFA)
+LEAVES01 = (('0',), ('1',), ('s', '0'), ('s', '1'))
 
 
 @lru_cache(maxsize=None)
